@@ -441,6 +441,21 @@ def chain_positions(case: dict[str, Any]) -> dict[str, int]:
     return dict(case.get("chain_pos", {}))
 
 
+def zstd_incomplete_sizeless(body: bytes) -> bool:
+    """`body` is a zstd frame WITHOUT a stored content size that ends before its end-of-frame (a truncated streaming frame):
+    it has no decoding at all — a fetch that returns anything for it returns a prefix of the plaintext as if it were complete."""
+    import zstandard
+
+    try:
+        if zstandard.get_frame_parameters(body).content_size not in (-1, 18446744073709551615):
+            return False
+        d = zstandard.ZstdDecompressor().decompressobj()
+        d.decompress(body)
+        return not d.eof
+    except Exception:  # noqa: BLE001 - not a zstd frame / corrupt in a way the library reports
+        return False
+
+
 def decoded_candidates(case: dict[str, Any], real: dict[str, Any]) -> list[bytes]:
     """What 'the object's decoded bytes' can be: decode(b) for every *complete* body b the origin serves for a successful GET
     (any path: a hop may answer a GET itself), under each Content-Encoding the origin names for that path.
@@ -492,11 +507,22 @@ def decoded_candidates(case: dict[str, Any], real: dict[str, Any]) -> list[bytes
                 if codec is None:
                     out.append(body)
                 else:
+                    if codec is Encoding.ZSTD and zstd_incomplete_sizeless(body):
+                        continue  # no valid decoding exists (python-zstandard's reader would hand back a silent prefix)
                     try:
                         out.append(decompress(codec, body))
                     except Exception:  # noqa: BLE001
                         pass
     return out
+
+
+def has_incomplete_zstd_body(case: dict[str, Any]) -> bool:
+    for p in case["script"]["paths"]:
+        names_zstd = any((sp.get("ce") or "").strip().lower().split(";", 1)[0].strip() == "zstd"
+                         for sp in list(p.get("head") or []) + list(p.get("get") or []) + list(p.get("range") or []) if "fault" not in sp)
+        if names_zstd and zstd_incomplete_sizeless(bytes.fromhex(p.get("object", ""))):
+            return True
+    return False
 
 
 def oracle(ctx: Any, case_id: dict[str, Any], case: dict[str, Any], real: dict[str, Any]) -> None:
@@ -572,6 +598,11 @@ def oracle(ctx: Any, case_id: dict[str, Any], case: dict[str, Any], real: dict[s
             ctx.fail(case_id, "C31:decoded-cap", f"returned {len(data)} bytes > max_decompressed_bytes {maxd}")
             return
         cands = decoded_candidates(case, real)
+        if data not in cands and has_incomplete_zstd_body(case):
+            ctx.fail(case_id, "C31:wrong-bytes:zstd-incomplete-sizeless-frame",
+                     f"returned {len(data)} decoded bytes for a truncated zstd frame without a stored content size (a prefix of the "
+                     f"plaintext, as if the object were complete) instead of failing")
+            return
         if data not in cands:
             ctx.fail(case_id, "C31:wrong-bytes", f"returned {len(data)} bytes that are not the decoded object (sizes {sorted({len(x) for x in cands})[:8]})")
             return
@@ -1130,6 +1161,25 @@ def corpus() -> list[dict[str, Any]]:
                "get": [{"status": 200, "body": {"k": "object"}, "ce": codec}], "range": [], "rangeAt": []}
         return mk("http://{O}/obj", [pth], {"maxDecompressed": cap}, object_len=len(stored))
 
+    # encoded bodies cut short: gzip / sized zstd must fail; a size-less (streaming) zstd frame is the open finding
+    def cut_body(codec: str, streaming: bool, cut: int) -> dict[str, Any]:
+        import random as _r
+
+        d = _r.Random(7).randbytes(70_000)
+        if codec == "zstd" and streaming:
+            import zstandard
+
+            stored = zstandard.ZstdCompressor(write_content_size=False).compress(d)
+        else:
+            stored = compress(Encoding(codec), d)
+        stored = stored[: len(stored) - cut]
+        pth = {"path": "/obj", "object": stored.hex(), "head": [{"status": 200, "cl": str(len(stored)), "ar": "none", "ce": codec}],
+               "get": [{"status": 200, "body": {"k": "object"}, "ce": codec}], "range": [], "rangeAt": []}
+        return mk("http://{O}/obj", [pth], {}, object_len=len(stored))
+
+    for codec, streaming in (("gzip", False), ("zstd", False), ("zstd", True)):
+        for cut in (1, 3, 40_000):
+            out.append(cut_body(codec, streaming, cut))
     for codec, streaming in (("gzip", False), ("zstd", False), ("zstd", True)):
         for nd, cap in ((2_000_000, 1000), (2_000_000, 65536), (1001, 1000), (1002, 1000), (1000, 1000), (70_000, 10), (400_000, 100_000), (5, 0)):
             out.append(bomb(codec, nd, cap, streaming))
